@@ -19,7 +19,8 @@ from vlib.util import diff_path
 PROPERTY = 'C19'
 RULE = ('histories over 6 IPv4 prefixes (incl. /0 and /32), 3 attribute sets, 3 flowspec rules, 3 VPNv4 routes: peer '
         'announce/withdraw/re-announce (same, changed)/mixed, flowspec and VPNv4 reach/unreach, operator sends of the same '
-        'shapes, session drop and re-establishment; plus all sequences of length <= 3 (4 in thorough) over a 2-prefix '
+        'shapes, one peer UPDATE carrying IPv4 withdrawals together with a flowspec / VPNv4 MP attribute, session drop and '
+        're-establishment; plus all sequences of length <= 3 (4 in thorough) over a 2-prefix '
         '2-attribute alphabet. Non-trivial = history contains a withdraw of a present route or a re-announce with changed '
         'attributes; distinct by operation sequence.')
 ASSUMPTIONS = ['rib=True; counters and tables are those of the current connection (a new session starts from zero)',
@@ -145,6 +146,35 @@ class Run(object):
                 code, body = sim.rest('POST', '/v1/peer/%s/send/update' % PEER, json_body=req)
                 if code != 200 or not body or body.get('status') is not True:
                     out.append(('send-rejected:%s' % k, '%r -> %s %r' % (req, code, body)))
+        elif k == 'xfam':
+            # one UPDATE from the peer carrying IPv4 withdrawn routes AND an MP attribute of another family (RFC 4760
+            # allows it): both parts are applied.  ['xfam', [ipv4 idx...], mp-kind, idx, label]
+            self.nontrivial = True
+            for p in [PREFIXES[i] for i in op[1]]:
+                if p in self.rib_in:
+                    del self.rib_in[p]
+                    changed['received'].add('ipv4')
+            mk, idx, lab = op[2], op[3], op[4]
+            fam = 'flowspec' if mk.startswith('fs') else 'mpls_vpn'
+            table = self.fs_in if mk.startswith('fs') else self.vpn_in
+            if mk.endswith('ann'):
+                val = (lab,) if mk == 'vpn-ann' else ('attrs0',)
+                if table.get(idx) != val:
+                    changed['received'].add(fam)
+                table[idx] = val
+            elif idx in table:
+                del table[idx]
+                changed['received'].add(fam)
+            base = rc.a_origin(0) + rc.a_as_path([(2, [65002])], True)
+            if mk == 'fs-ann':
+                at = base + rc.a_mp_reach(1, 133, b'', rc.fs_rule(FS_RULES[idx]))
+            elif mk == 'fs-wd':
+                at = rc.a_mp_unreach(1, 133, rc.fs_rule(FS_RULES[idx]))
+            elif mk == 'vpn-ann':
+                at = base + rc.a_mp_reach(1, 128, b'\x00' * 8 + rc.ip4('10.0.0.2'), rc.vpn_route(VPN[idx][1], rc.rd(VPN[idx][0]), [lab]))
+            else:
+                at = rc.a_mp_unreach(1, 128, rc.vpn_route(VPN[idx][1], rc.rd(VPN[idx][0]), [], raw_label=rc.WITHDRAW_LABEL))
+            r.peer_send(self.c, rc.update(withdrawn=b''.join(rc.prefix4(PREFIXES[i]) for i in op[1]), attrs=at))
         elif k in ('vpn-ann2', 'fs-ann2'):
             side = op[-1]
             act = 'received' if side == 'peer' else 'send'
@@ -281,7 +311,12 @@ class Run(object):
 
 def _strip(dp):
     import re
-    return re.sub(r'/\d+\.\d+\.\d+\.\d+/\d+', '/<prefix>', dp)
+    dp = re.sub(r'/\d+\.\d+\.\d+\.\d+/\d+', '/<prefix>', dp)
+    # key sets: keep which side has extra routes, not which routes
+    m = re.search(r'missing=([^,>]*(?:,[^=>]*?)*),extra=([^>]*)', dp)
+    if m:
+        dp = dp[:m.start()] + 'missing=%s,extra=%s' % ('some' if m.group(1) else 'none', 'some' if m.group(2) else 'none') + dp[m.end():]
+    return dp
 
 
 def run_ops(ops):
@@ -308,6 +343,8 @@ op_strategy = st.one_of(
         lambda t: ['vpn-ann2', t[1], t[2], (t[3] if t[3] != t[1] else (t[1] + 1) % 3), t[4], t[5]]),
     st.tuples(st.just('fs-ann2'), st.integers(0, 2), st.integers(0, 2), side).map(
         lambda t: ['fs-ann2', t[1], (t[2] if t[2] != t[1] else (t[1] + 1) % 3), t[3]]),
+    st.tuples(st.just('xfam'), idxs, st.sampled_from(['fs-ann', 'fs-wd', 'vpn-ann', 'vpn-wd']), st.integers(0, 2),
+              st.sampled_from([16, 17])).map(list),
     st.just(['drop']),
 )
 
@@ -324,7 +361,7 @@ def run_shard(spec, seed, col, tier):
         alpha = [['ann', [1], 0, 'peer'], ['ann', [1], 1, 'peer'], ['ann', [1], 3, 'peer'], ['ann', [1], 4, 'rest'], ['ann', [1], 3, 'rest'], ['ann', [2], 0, 'peer'], ['ann', [1, 2], 1, 'peer'],
                  ['wd', [1], 'peer'], ['wd', [2], 'peer'], ['mixed', [1], 0, [2], 'peer'], ['ann', [1], 0, 'rest'], ['wd', [1], 'rest'],
                  ['drop'], ['vpn-ann2', 0, 16, 1, 17, 'peer'], ['vpn-ann', 0, 16, 'peer'], ['vpn-ann', 0, 17, 'peer'], ['vpn-wd', 0, 'peer'],
-                 ['fs-ann2', 0, 1, 'peer'], ['fs-wd', 0, 'peer']]
+                 ['fs-ann2', 0, 1, 'peer'], ['fs-wd', 0, 'peer'], ['xfam', [1], 'fs-wd', 0, 16], ['xfam', [2], 'vpn-ann', 0, 17]]
         seqs = list(itertools.product(range(len(alpha)), repeat=spec['len']))[spec['part']::spec['parts']]
         for s in seqs:
             ops = [alpha[i] for i in s]
